@@ -415,7 +415,8 @@ func (r *ExclusiveENI) Setup(ctx context.Context, cfg *types.SetupConfig, netNS 
 		return fmt.Errorf("error set container link/address/route, %w", err)
 	}
 
-	if cfg.DisableCreatePeer {
+	// the host peer is only created for eth0
+	if cfg.DisableCreatePeer || cfg.ContainerIfName != "eth0" {
 		return nil
 	}
 
